@@ -20,10 +20,12 @@ Reset == IsEvent("reset") /\ p' = PowerOn /\ Regs(p') /\ Quiet
 Pos   == IsEvent("pos") /\ p' = [p EXCEPT !.q = Recs[l].arg] /\ Regs(p') /\ Quiet
 WStat == IsEvent("wstat") /\ p' = WriteSTAT(p, Recs[l].arg) /\ Regs(p') /\ Recs[l].vb = 0
 WLyc  == IsEvent("wlyc") /\ p' = WriteLYC(p, Recs[l].arg) /\ Regs(p') /\ Recs[l].vb = 0
+\* LCDC does not influence the schedule (Dev_NoLcdOff): a write leaves position and requests alone
+WLcdc == IsEvent("wlcdc") /\ UNCHANGED p /\ Regs(p) /\ Quiet
 Adv   == IsEvent("adv") /\ LET r == Run(p, Recs[l].arg) IN
            /\ p' = r.p /\ Regs(r.p)
            /\ Recs[l].vb = B2N("vblank" \in r.req) /\ Recs[l].st = B2N("stat" \in r.req)
-Next == Reset \/ Pos \/ WStat \/ WLyc \/ Adv
+Next == Reset \/ Pos \/ WStat \/ WLyc \/ WLcdc \/ Adv
 TraceSpec == Init /\ [][Next]_<<p, l>>
 
 Matched == TLCGet("stats").diameter - 1
